@@ -297,6 +297,18 @@ def t7_raw_key_normal_form(ctx) -> None:
         else:
             ctx.violation("T7", g, "RecomputingDict.__getitem__ may return a strategy other than that of the rule whose recomputed key equals the request",
                           construct="RecomputingDict.__getitem__ returns")
+    # the pack is replayed on every label of the key (a factory may produce the rule from any of them)
+    prods = [c for c in walk_local(g) if isinstance(c, ast.Call) and norm(c.func) in ("itertools.product", "product") and len(c.args) == 2 and norm(c.args[1]) in ("self.pack", "self._pack")]
+    kp0 = gi.params()[1]
+    if prods:
+        lab = norm(D.expanded(g, prods[0].args[0]))
+        if lab in (f"({kp0}[0],) + {kp0}[1]", f"self._flatten({kp0})", f"({kp0}[0], *{kp0}[1])", f"tuple(itertools.chain([{kp0}[0]], {kp0}[1]))"):
+            ctx.ok("T7", "recomputation replays the pack on the parent and on every child of the key")
+        else:
+            ctx.violation("T7", prods[0], f"the pack is replayed on `{lab}`; it must be replayed on all labels of the key (({kp0}[0],) + {kp0}[1]): a rule made by a factory from "
+                          "the label left out is never recomputed")
+    else:
+        raise AnalysisError("T7: RecomputingDict.__getitem__ no longer walks itertools.product(<labels>, self.pack)")
     # membership before recomputation
     first = g.body[0]
     raises = [r for r in C.raises_of(g) if r.exc is not None and norm(r.exc).startswith("KeyError")]
@@ -459,6 +471,26 @@ def w4_pack_iteration(ctx) -> None:
         raise AnalysisError(f"W4: expected five strategy lists in StrategyPack.__init__, found {attrs}")
     mentioned = {x.attr for x in ast.walk(it.node) if is_self_attr(x)}
     missing = sorted(set(attrs) - mentioned)
+    # nesting: a parameter annotated Iterable[Iterable[...]] holds lists of strategies, the others strategies
+    nested = set()
+    for x in a.posonlyargs + a.args + a.kwonlyargs:
+        if x.annotation is not None and norm(x.annotation).count("Iterable[") >= 2:
+            for n in walk_local(init.node):
+                if isinstance(n, ast.Assign) and len(n.targets) == 1 and is_self_attr(n.targets[0]) and x.arg in {y.id for y in ast.walk(n.value) if isinstance(y, ast.Name)}:
+                    nested.add(n.targets[0].attr)
+    for c in ast.walk(it.node):
+        if isinstance(c, ast.Call) and norm(c.func) in ("chain", "itertools.chain"):
+            for arg in c.args:
+                starred = isinstance(arg, ast.Starred)
+                base = arg.value if starred else arg
+                if is_self_attr(base) and base.attr in attrs:
+                    if starred and base.attr not in nested:
+                        ctx.violation("W4", arg, f"`*self.{base.attr}` hands each *strategy* of a flat list to chain() as if it were a list: iterating the pack fails (or "
+                                      "iterates into the strategy) as soon as the pack has such a strategy")
+                    if not starred and base.attr in nested:
+                        ctx.violation("W4", arg, f"`self.{base.attr}` is a list of lists of strategies: chained unstarred, the pack yields lists instead of strategies")
+        if isinstance(c, ast.YieldFrom) and is_self_attr(c.value) and c.value.attr in nested:
+            ctx.violation("W4", c, f"`yield from self.{c.value.attr}` yields lists of strategies, not strategies")
     if missing:
         ctx.violation("W4", it.node, f"StrategyPack.__iter__ leaves out {missing}: the memory-saving database and the forest extractor replay the pack by iterating "
                       "it, so rules produced by those strategies can never be recomputed", construct="StrategyPack.__iter__ coverage")
